@@ -157,6 +157,8 @@ PROPS = {
     },
     "C14": {
         "race_build": True,
+        "search_tier": "search",
+        "search_seeds": 2,
         "shrink": False,
         "run_timeout": 3600,
         "manifest": {
@@ -620,3 +622,10 @@ PROPS["C14"]["manifest"]["text"] += (
 PROPS["C19"]["manifest"]["text"] += (
     " Lock traces inline calls of methods of the same receiver (a cleaner body moved into a helper keeps its trace). Op cconc: "
     "fresh counters incremented by several goroutines released together equal the sum of the increments.")
+PROPS["C14"]["manifest"]["text"] += (
+    " Channels that are shared fields: Generated.LockFacts.chanOps lists every send / receive with the locks held; "
+    "no_three_party_wait (with threeParty_iff) rules out the reader-writer-lock / channel wait (a receive under lock L, a "
+    "pending writer, a sender that must take L shared first), which no lock-order edge and no race report shows. When a lock "
+    "theorem or the table no longer checks, the search runs the stress with 48-64 lookup workers against the 15 pooled "
+    "iterators (watchdog for hangs). Lock regions understood: Lock + adjacent defer Unlock (also defer func(){Unlock}()), "
+    "Lock ... Unlock in one statement list, with early exits `if c { ...; Unlock; return }` inside it.")
